@@ -1,10 +1,13 @@
 """C05 - translate_rotate is the exact rigid motion on every object (spec: Transform.tla).
 
 gamma  builds the reference world of spec/Transform.tla!World (integer coordinates, orientations atan2(s, c) of tokens)
-       through public constructors: two lanelets (one with a stop line), a sign, a light, a static obstacle, a dynamic
-       obstacle with a trajectory, one with a set-based prediction (rect / circle / polygon / shape-group occupancies), one
-       with an uncertain initial state, a phantom obstacle, two environment obstacles, two planning problems with shape /
-       lanelet / orientation-interval goal states - restricted to the obstacle roles of the case's role mix.
+       through public constructors: three lanelets (one with a stop line; lanelets 1 and 3 are neighbours and, in the
+       "shared-arrays" variant, hold ONE ndarray object as common boundary), a sign, a light, a static obstacle, dynamic
+       obstacles with a KS trajectory (incl. an uncertain state), a point-mass trajectory (PMState: position + derived
+       heading), an orientation-free CustomState trajectory, a set-based prediction (rect / circle / polygon / shape-group
+       occupancies) and an uncertain initial state, a phantom obstacle, two environment obstacles, two planning problems
+       with shape / lanelet / orientation-interval goal states - restricted to the obstacle roles of the case's role mix.
+variants: cold / warm (exported geometry of every shape evaluated before the motion) and none / shared-arrays.
 alpha  snapshots every stored point and orientation before and after the call through PUBLIC accessors of primary data
        only (states, stored shapes, vertices; never occupancy queries on the object under test - that is C11).
 The harness never computes the expected image for token rotations: it logs the INTEGER nearest to den * x' and whether
